@@ -17,6 +17,7 @@
 #include <set>
 #include <unordered_set>
 
+static int c15_app_function(int x) { return x + 1; }
 using namespace rlbox;
 
 template<typename X>
@@ -395,6 +396,38 @@ int main(int argc, char** argv)
       }
       if (ab2 || live_cap != 4095) report("owners-model", "token-leaked-by-a-refused-registration", mon::fmt("after the registration above only %u of 4095 tokens can be handed out (token of the next registration: %u)", live_cap, tok));
       else n_full_abort++;
+      s->destroy_sandbox();
+    }
+    // the application pointer is the address of a FUNCTION (T = int(int), T* is itself a function pointer): the token still
+    // stands for a location in the sandbox's address range -- registration must not be refused while tokens are free, the
+    // token must resolve to the function's address, and a refusal must not leak the token
+    {
+      auto s = std::make_unique<rlbox_sandbox<VS>>();
+      s->create_sandbox(&lib);
+      mon::ctx("owners-model | app pointer to a function");
+      VS::strict_function_table = true; // the backend's function table is bounds-checked: a bad index is an abort of the backend
+      bool okk = false;
+      uint64_t tokv = 0;
+      bool ab = mon::aborts([&] {
+        auto ap = s->get_app_pointer(&c15_app_function);
+        tokv = tok64(ap.UNSAFE_sandboxed(*s));
+        okk = tokv != 0 && tokv < 4096 && s->lookup_app_ptr(ap.to_tainted()) == &c15_app_function;
+        ap.unregister();
+      });
+      mon::evals();
+      if (ab || !okk) report("owners-model", "app-pointer-to-function-refused-or-wrong", ab ? "get_app_pointer(&function) / its lookup aborted although every token is free (backend with a function table)" : mon::fmt("token %llu out of range or wrong lookup", (unsigned long long)tokv));
+      else n_lookup_ok++;
+      unsigned live_cap = 0;
+      {
+        std::vector<app_pointer<int*, VS>> held;
+        static int y;
+        for (;;) { bool full = mon::aborts([&] { held.push_back(s->get_app_pointer(&y)); }); if (full) break; live_cap++; if (live_cap > 5000) break; }
+        for (auto& h : held) h.unregister();
+      }
+      mon::evals();
+      if (live_cap != 4095) report("owners-model", "token-leaked-by-a-refused-registration", mon::fmt("after get_app_pointer(&function) only %u of 4095 tokens can be handed out", live_cap));
+      else n_full_abort++;
+      VS::strict_function_table = false;
       s->destroy_sandbox();
     }
     // fill the 4 KiB model sandbox to its limit: 4095 tokens, then one more
